@@ -95,11 +95,13 @@ def check_translated_detect(run: lib.Run, audit: dict, violations: list) -> None
 EXPECTED_DELIVERY = {
     "FilePolicySource.load": {"parser_calls": [{"fn": "parse_policy_text", "from": ".policy_loader:parse_policy_text", "positional": 1,
                                                 "hints": {"filename": "self.path"}}], "other_parsers": []},
-    # a response object that has a `.json` method is asked first (twice in the text: the fast path, and the empty-body fallback); a
-    # failure or a non-dict falls through to parse_policy_text with the URL and the Content-Type as hints
+    # (re-pinned after the F20 repair, /repo a55bb87) a response object that has a `.json` method is asked first ONLY when
+    # `_detect_format(filename=self.url, content_type=…)` selects JSON — the same decision parse_policy_text takes under those hints —
+    # (`.json()` twice in the text: the fast path, and the empty-body fallback behind a JSON content type); a failure or a non-dict falls
+    # through to parse_policy_text with the URL and the Content-Type as hints; `same_text_same_hints` checks the behaviour on every run
     "HTTPPolicySource.load": {"parser_calls": [{"fn": "parse_policy_text", "from": ".policy_loader:parse_policy_text", "positional": 1,
                                                 "hints": {"filename": "self.url", "content_type": "content_type"}}],
-                              "other_parsers": ["r.json()", "r.json()"]},
+                              "other_parsers": ["_detect_format()", "r.json()", "r.json()"]},
     "S3PolicySource.load": {"parser_calls": [{"fn": "parse_policy_bytes", "from": ".policy_loader:parse_policy_bytes", "positional": 1,
                                               "hints": {"filename": "self.loc.key"}}], "other_parsers": []},
 }
